@@ -1,14 +1,15 @@
 #!/bin/bash
-# runall.sh [tier] [seed] [ids...] : run the registered checks, one summary line each
+# runall.sh [tier] [seed] [ids...] : run the registered checks of the /verif this script lives in, one summary line each
 TIER=${1:-quick}; SEED=${2:-1}; shift; shift
 IDS="$@"
+cd "$(dirname "$0")/.."
 [ -z "$IDS" ] && IDS=$(python3 -c "
 import json
-print(' '.join(c['property_id'] for c in json.load(open('/verif/MANIFEST.json'))['checks']))")
-cd /verif
+print(' '.join(c['property_id'] for c in json.load(open('MANIFEST.json'))['checks']))")
+LOGDIR=${VERIF_LOGDIR:-/tmp}
 for c in $IDS; do
   s=$(date +%s)
-  VERIF_SEED=$SEED VERIF_EVIDENCE_DIR=${VERIF_EVIDENCE_DIR:-/verif/evidence} ./check $c --tier $TIER > /tmp/runall-$c-$SEED.log 2>&1; rc=$?
+  VERIF_SEED=$SEED VERIF_EVIDENCE_DIR=${VERIF_EVIDENCE_DIR:-$PWD/evidence} ./check $c --tier $TIER > $LOGDIR/runall-$c-$SEED-$TIER.log 2>&1; rc=$?
   e=$(date +%s)
-  echo "check=$c tier=$TIER seed=$SEED exit=$rc violations=$(grep -c '^VIOLATION' /tmp/runall-$c-$SEED.log) known=$(grep -c '^KNOWN-FINDING' /tmp/runall-$c-$SEED.log) wall=$((e-s))s"
+  echo "check=$c tier=$TIER seed=$SEED exit=$rc violations=$(grep -c '^VIOLATION' $LOGDIR/runall-$c-$SEED-$TIER.log) known=$(grep -c '^KNOWN-FINDING' $LOGDIR/runall-$c-$SEED-$TIER.log) wall=$((e-s))s"
 done
